@@ -19,6 +19,17 @@ let eval_stream (stream : string) (case : string) (impl : string) : verdict =
     let outs = Model.cache_run Model.cache_init rs in
     let m = String.concat "," (List.map hex_of_bytes outs) in
     { model = m; fails = (if m <> impl then [("C18", "-")] else []) }
+  | "dateresp" ->
+    (* the Date line must be the formatted clock reading at the writer's first write (requests carry no Date unless the
+       header set asks for one: Headers::new() does) *)
+    (match split_on ' ' impl with
+     | [d; first] when first <> "-1" ->
+       (* "never lags the clock by more than one second": the reading at the first write, or the second before it *)
+       let t = int_of_string first in
+       let m = hex_of_bytes (Model.format_http_date (z_of_int t)) in
+       let m1 = hex_of_bytes (Model.format_http_date (z_of_int (max 0 (t - 1)))) in
+       { model = (if d = m1 then m1 else m) ^ " " ^ first; fails = (if d <> m && d <> m1 then [("C18", "-")] else []) }
+     | _ -> { model = "?"; fails = [("C18", "-")] })
   | "router" ->
     (match split_on '|' case with
      | [regs; qs] ->
